@@ -14,6 +14,8 @@ Guards(o) ==
        <<o.wf, "Malformed">>,
        <<o.status = o.case.status, "StatusDiffers">>,
        <<o.delim # "close", "DelimitedByClose">>,
+       \* the client that has to find the end is the one that sent the request: an HTTP/1.0 client knows no transfer coding
+       <<o.case.ver = "1.0" => o.delim # "chunked", "CodingUnknownToClient">>,
        <<ExpectBody(o.case.head, o.case.status) => (o.bodyok /\ o.blen = o.case.len), "BodyDiffers">>,
        <<(~ExpectBody(o.case.head, o.case.status)) => o.wire = 0, "BodyOctetsOnNoBodyResponse">> >>
 =============================================================================
